@@ -4,4 +4,5 @@ pub mod crash;
 pub mod dirgen;
 pub mod faults;
 pub mod fsx;
+pub mod mount;
 pub mod pure;
